@@ -68,8 +68,8 @@ static int const_b(int c)
 }
 static int size_b(int sz)
 {
-	static const int q[] = {0, 1, 15, 16, 17, 33, 40}, t[] = {0, 1, 7, 8, 15, 16, 17, 31, 32, 33, 47, 48, 49, 64, 65, 80};
-	return g_tier_q ? in_set(sz, q, 7) : in_set(sz, t, 16);
+	static const int q[] = {0, 1, 15, 16, 17, 33, 40};
+	return g_tier_q ? in_set(sz, q, 7) : (sz >= 0 && sz <= 80);
 }
 static int is_group(int sz, int n, int p, int c)
 {
